@@ -111,16 +111,19 @@ CLAIMS = {
         technique="contract-based deductive verification (quantified VCs over grid + heap arrays, class invariant => all histories) + bounded reference-grid stand-in"),
     "C12": dict(
         category="other", design="DESIGN.md section 7 C12",
-        text="Mixed. Proved (contract-based, real source): Cell._set_merge for its three cases (anchor: is_merged + size; placeholder: "
-             "rect, merge_range == A1 text of the rectangle via xl_range's contract, inner-edge flags; unmerged), for all positions and "
-             "rectangles. The stored merge map's pack/unpack expressions are extracted from the source and checked for all positions "
-             "within the documented table limits: refuted for rows >= 65536 (open known finding, replayed on a real save/reopen), so "
-             "not every obligation is discharged and the level is not 'proof'. The picture on whole documents (every cell of the "
-             "rectangle, cells outside, merge_ranges, reload, writes, insert/delete after the merge) is a bounded run-time-contract "
-             "stand-in over all rectangles of a 4x4 (6x6) table.",
-        note="Assumes: xl_range through its C10 contract; Table.merge_cells' loops are not under contract (bounded only). One genuine "
-             "defect repaired (merge_cells converted only interior cells), two recorded as open known findings (merge map not shifted "
-             "by insert/delete; 16-bit packing vs 1,000,000 rows). Trusted: " + TB,
+        text="Mixed. Proved (contract-based, real source): Table.merge_cells for one range (four nested loop invariants over a ghost grid, any "
+             "table and rectangle inside it): one anchor at the top-left with the rectangle's size, exactly the other cells of the rectangle "
+             "replaced by placeholders carrying their own position and registered as references to the whole rectangle - none outside, none "
+             "missing - then every cell's merge state set from the lookup for its own position; Cell._set_merge for its three cases (anchor: "
+             "is_merged + size; placeholder: rect, merge_range == A1 text via xl_range's contract, inner-edge flags; unmerged); "
+             "recalculate_merged_cells: the table refers to a freshly created map listing every anchor in order with packed position and size. "
+             "The pack/unpack expressions of the stored map are checked for all positions within the documented table limits: refuted for rows "
+             ">= 65536 (open known finding, replayed on a real save/reopen), so not every obligation is discharged and the level is not 'proof'. "
+             "Whole documents (reload, writes, insert/delete after the merge, several saves with merges in between): bounded stand-in over all "
+             "rectangles of a 4x4 (6x6) table.",
+        note="Assumes: xl_range and xl_cell_to_rowcol through their C10 contracts (the range text is split by an opaque expression); MergeCells "
+             "as a ghost record. One genuine defect repaired (merge_cells converted only interior cells), two recorded as open known findings "
+             "(merge map not shifted by insert/delete; 16-bit packing vs 1,000,000 rows). Trusted: " + TB,
         technique="contract-based deductive verification of the kernels + bounded run-time-contract stand-in (mixed)"),
     "C17": dict(
         category="proof", design="DESIGN.md section 7 C17",
@@ -184,7 +187,8 @@ CLAIMS = {
              "A-REPR - for every double; payload transport through the cell record (C04 encoder/decoder contracts re-verified); text "
              "round trip through the string list for every string (C06 DataLists contracts re-verified); lemmas DT-ROUNDTRIP / "
              "DT-WHOLE-SECONDS / DT-DOMAIN in mixed integer/real arithmetic for dates and durations under A-DT; growth on out-of-range "
-             "writes (C11 contract re-verified). The statement is end to end (write, save, reopen): that composition through "
+             "writes (C11 contract re-verified); the table writer (C07's tile-loop and row-record contracts re-verified: every row stored exactly "
+             "once). The statement is end to end (write, save, reopen): that composition through "
              "recalculate_table_data, the tile writer and the container is a bounded stand-in (1M codec values, 6 types x 300 values x "
              "positions incl. beyond the table), so the level is not 'proof'.",
         note="Assumes A-REPR (shortest spelling; correctly rounded int/int division and float(int)), A-DT (CPython datetime arithmetic), "
@@ -198,7 +202,7 @@ CLAIMS = {
              "words and the encoder for every storable kind with the lemmas ROUNDTRIP and DISJOINT - every optional reference the "
              "decoder reads (style, formats, formula, control, rich-text ids) is re-emitted at the slot it is read from; the decimal128 "
              "codec contracts and lemmas (a float read from a record is written back as a decimal whose correctly rounded value is that "
-             "float); the string-list contracts (reset, re-keying, lookup). The statement quantifies over whole documents and open/save "
+             "float); the string-list contracts (reset, re-keying, lookup); the table writer (C07's tile-loop and row-record contracts). The statement quantifies over whole documents and open/save "
              "cycles: bounded stand-in over the fixtures and built documents, two cycles, with and without read-only accessors called "
              "before saving, comparing class/value/formula/formatted value/merge state/bullets/hyperlinks per cell.",
         note="Assumptions of C04/C01/C06 apply. Genuine defects repaired: fix: commits d484052 (rich-text id written twice), 5fd0efc "
@@ -258,7 +262,8 @@ CLAIMS = {
              "coarsest unit dividing the value but not coarser than the largest, zero shows days); _unit_format for every value and style and "
              "each of the six units. Complete ground checks: each directive lambda of DATETIME_FIELD_MAP reads only the field its documented "
              "meaning depends on (syntactic, whole table) and renders the documented value, range and padding over that field's whole domain "
-             "(exhaustive: 24 hours, 60 minutes, 60 seconds, every day of four years, 12 months, 7 weekdays; sampled years and sub-seconds); "
+             "(exhaustive for clock fields: 24 hours, 60 minutes, 60 seconds; for date fields every day of 33 years incl. the century years "
+             "1700..2400 and both ends of the range - a sample of the date domain; sampled years and sub-seconds); "
              "format validation uses the same table. The format parser (_decode_date_format: literals, quotes, concatenation) and "
              "_duration_format (float division per unit) are not under contract: bounded stand-in with an independent oracle and a "
              "display-parse-back check, so the level is not 'proof'.",
